@@ -36,7 +36,7 @@ Init == /\ tid \in 1..N /\ l = 1 /\ now = -1 /\ cs = 0
         /\ F = Hd.p0s /\ fired = {} /\ reqs = <<>> /\ accSeen = {} /\ early = {}
         /\ cnt = [r \in 1..Len(Hd.hl) |-> 0]
         /\ hs = [m \in 1..NM |-> NoHalt]
-        /\ v = [C03 |-> "ok", C14 |-> "ok", C15 |-> "ok", C16 |-> "ok", C17 |-> "ok"]
+        /\ v = [C03 |-> "ok", C14 |-> "ok", C15 |-> "ok", C16 |-> "ok", C17 |-> "ok", C19 |-> "ok"]
 
 \* ------------------------------------------------------------------ helpers
 ShocksAt(m, t) == {i \in 1..Len(Hd.fs) : Hd.fs[i][1] = m /\ Hd.fs[i][2] <= t /\ t < Hd.fs[i][2] + Hd.fs[i][3]}
@@ -147,7 +147,15 @@ Acc(e) ==
            [v EXCEPT
               !.C14 = F_(@, e.buy # (mk[3] > 0) \/ e.mo \/ e.vol # mk[5] \/ e.ttl # mk[6] \/ (e.mp >= 0 /\ pxF # expM),
                          "C14:mistake-fields"),
-              !.C15 = F_(@, rules # {} /\ ~InBandAll(pxF, p0, rules), "C15:outside-band-after-mistake-override")]
+              !.C15 = F_(@, rules # {} /\ ~InBandAll(pxF, p0, rules), "C15:outside-band-after-mistake-override"),
+              \* the order a mistake shock writes is a limit order like any other: market price x (1 + rate) = a / b is moved onto
+              \* the grid in the direction of ITS side (a buy down, a sell up), by less than one tick
+              !.C19 = LET a == e.mp * (mk[4] + mk[3])  b == mk[4]  buyM == mk[3] > 0 IN
+                      F_(@, e.mp >= 0 /\ ~e.mo /\ e.px > -100000000 /\
+                            (\/ pxF % FDEN # 0
+                             \/ (buyM /\ (pxF * b > a \/ a - pxF * b >= FDEN * b))
+                             \/ (~buyM /\ (pxF * b < a \/ pxF * b - a >= FDEN * b))),
+                         "C19:order-written-by-a-hook-rounded-against-its-side")]
       ELSE [v EXCEPT
               !.C14 = F_(@, ~sameShape \/ (rules = {} /\ Len(Hd.pl) = 0 /\ ~e.mo /\ pxF # expPx),
                          IF Len(Hd.ms) > 0 THEN "C14:mistake-target" ELSE "C14:order-altered-without-cause"),
@@ -209,6 +217,8 @@ Step ==
        [] e.k = "acc" -> Acc(e)
        [] e.k = "round" -> Round(e)
        [] e.k = "abort" -> Abort(e)
+       [] e.k = "tick" ->        \* (dok: an index asked without a time, while its components are one step ahead, answered for its own clock)
+            /\ v' = [v EXCEPT !.C17 = F_(@, e.dok = FALSE, "C17:index-without-a-time-is-not-the-index-at-its-clock")] /\ Unch
        [] e.k = "dupreg" ->      \* a component registered a second time: refused (the index values that follow are judged as ever)
             /\ v' = [v EXCEPT !.C17 = F_(@, ~e.refused, "C17:duplicate-component-accepted")] /\ Unch
        [] OTHER -> UNCHANGED <<now, cs, F, fired, reqs, cnt, hs, accSeen, early, v>>
